@@ -239,6 +239,9 @@ def generic_canon(obj, depth=0, _seen=None):
     if SKIP_TYPES and isinstance(obj, SKIP_TYPES):
         return ("skip", type(obj).__name__)
     import types as _t
+    import logging as _lg
+    if isinstance(obj, (_lg.Logger, _lg.Handler, _t.ModuleType)):
+        return ("skip", type(obj).__name__)      # loggers carry caches that depend on which messages were emitted
     if isinstance(obj, _t.MethodType):
         return ("method", obj.__func__.__name__, generic_canon(obj.__self__, depth + 1, _seen))
     if isinstance(obj, (_t.FunctionType, _t.BuiltinFunctionType, type)):
